@@ -841,6 +841,13 @@ def dump_one(f: TextIO, data: IOData):
         else:
             angmom_kinds[angmom] = kind
 
+    # The [9G] tag switches g and h functions together and the loader only knows pure h functions.
+    if angmom_kinds.get(5) == "p" and angmom_kinds.setdefault(4, "p") != "p":
+        raise DumpError(
+            "Molden format does not support pure h functions combined with Cartesian g functions.",
+            f,
+        )
+
     # Fill in some defaults (Cartesian) for angmom kinds if needed.
     angmom_kinds.setdefault(2, "c")
     angmom_kinds.setdefault(3, "c")
